@@ -13,3 +13,4 @@ import InToto.Properties.C13
 #print axioms InToto.C13.recording_never_panics
 #print axioms InToto.C13.match_products_exact
 #print axioms InToto.C13.normalize_example
+#print axioms InToto.C13.facts_hash_names
